@@ -57,6 +57,11 @@ GROUPS["bvf_count"] = G("bvf_count", BVF_PRELUDE,
 GROUPS["bvf_slice"] = G("bvf_slice", BVF_PRELUDE,
     BVF_BASE + stub(BVF_CORE) + verify(["bvf.copy_range"]))
 
+BVF_DEFAULTS = ["bvf.is_empty", "bvf.repeat", "bvf.first", "bvf.last", "bvf.split_off", "bvf.split", "bvf.truncate",
+                "bvf.sign_extend", "bvf.significant_bits"]
+GROUPS["bvf_defaults"] = G("bvf_defaults", BVF_PRELUDE,
+    BVF_BASE + stub(BVF_CORE + BVF_COUNT + ["bvf.copy_range"]) + verify(BVF_DEFAULTS))
+
 # -------------------------------------------------------------------------------------------------
 # property -> jobs
 TYPES6 = ["u8", "u16", "u32", "u64", "u128", "usize"]
